@@ -10,6 +10,15 @@ BASELINE_OFF = ("cd /repo && env -u PYOPENAPI_GEN_VERIF /venv/bin/python -m pyte
 
 # id -> (category, technique, level text, level note, design ref)
 CHECKS = {
+    "C02": ("exploration", "runtime monitoring: independent reference resolver compared with the real loader's IR and with the imported generated dataclasses, over exhaustively enumerated small schema graphs",
+            "graphgen builds every directed multigraph on 2 named schemas (8 edge kinds incl. allOf, per ordered pair and self-pair) x both declaration orders x 3 "
+            "naming schemes (unrelated, prefix-of-one-another, property==schema name up to case) with an independent expectation (own + allOf-inherited properties). "
+            "Each graph is loaded by the real load_ir_from_spec and compared per declared schema (present, not a placeholder, key set, required); a sample (all acyclic "
+            "graphs) is generated and read back in a fresh interpreter: one dataclass per schema, Meta load/dump maps are inverse bijections onto the fields with "
+            "exactly the spec's keys, has-default <=> optional, structural kind. Thorough: 3 schemas <=3 edges x 6 orders, random 4-6 node graphs. Field loss is "
+            "attributed to the open finding only for schemas on (or inheriting from) a reference cycle.",
+            "Graphs with cyclic allOf skipped (undefined inheritance); validator stubbed; kind check lenient on names of promoted inline classes.",
+            "DESIGN.md §4 C02"),
     "C03": ("exploration", "runtime monitoring: round-trip oracle through the emitted package's own converter in a fresh interpreter",
             "For documents from the grammar every generated object model / array alias is fed schema-conforming instances (required-only, all, random subsets, "
             "explicit nulls; formats date-time/date/uuid/time/byte/...; 7 property-name styles; self-references incl. arrays of self) and "
